@@ -78,83 +78,84 @@ theorem post_to_components {n es sets} (h : Post n es sets) : IslandsAreComponen
     · exact R_self hs ht
     · exact h
 
-/-- the dichotomy proved for the loop as written: it always terminates; it raises `IndexError` exactly when
-every bus is isolated; otherwise `island_sets` are the components -/
+/-- the two cases of the loop as written (with its guard `len(islanded_buses) < n`): when every bus is isolated the
+sweep is not entered and `island_sets` is empty; otherwise `island_sets` are the components.  It always terminates. -/
 theorem islandSets_cases (n : Nat) (es : List Edge) :
-    ((∀ v, v < n → ¬ Touched es v) ∧ islandSets n es = .error .indexError) ∨
+    ((∀ v, v < n → ¬ Touched es v) ∧ islandSets n es = .ok []) ∨
     ((∃ v, v < n ∧ Touched es v) ∧ ∃ sets, islandSets n es = .ok sets ∧ IslandsAreComponents n es sets) := by
-  rcases outer_skip n es (2 * n + 2) 0 (by simp) (by omega) (by omega) with ⟨h1, h2⟩ | ⟨⟨v, hv, hvi⟩, sets, h2, h3⟩
+  unfold islandSets
+  by_cases hg : n ≤ (islanded n es).length
   · left
-    exact ⟨fun v hv ht => (not_islanded_iff hv).mpr ht (h1 v hv), h2⟩
-  · right
-    exact ⟨⟨v, hv, (not_islanded_iff hv).mp hvi⟩, sets, h2, post_to_components h3⟩
+    have hall := (guard_iff_all_islanded n es).mp hg
+    exact ⟨fun v hv ht => (not_islanded_iff hv).mpr ht (hall v hv), by simp [hg]⟩
+  · rcases outer_skip n es (2 * n + 2) 0 (by simp) (by omega) (by omega) with ⟨h1, _⟩ | ⟨⟨v, hv, hvi⟩, sets, h2, h3⟩
+    · exact absurd ((guard_iff_all_islanded n es).mpr h1) hg
+    · right
+      exact ⟨⟨v, hv, (not_islanded_iff hv).mp hvi⟩, sets, by simp [hg, h2], post_to_components h3⟩
 
-/-- FULL statement wanted: for every graph `island_sets` enumerates each connected component of the
-non-isolated vertices exactly once.  It fails when every bus is isolated (`all_isolated_index_error`), hence
-the hypothesis `hne`. -/
-theorem islands_are_components_partial (n : Nat) (es : List Edge) (hne : ∃ v, v < n ∧ Touched es v) :
+/-- **`island_sets` enumerates each connected component of the non-isolated vertices exactly once — for every
+graph** (full strength since the repair of `all-islanded-indexerror`: on the pinned tree `System.connectivity` raised
+`IndexError` when every bus was isolated, and the statement carried the hypothesis "some bus is touched"). -/
+theorem islands_are_components (n : Nat) (es : List Edge) :
     ∃ sets, islandSets n es = .ok sets ∧ IslandsAreComponents n es sets := by
-  rcases islandSets_cases n es with ⟨h, _⟩ | ⟨_, h⟩
-  · obtain ⟨v, hv, ht⟩ := hne; exact absurd ht (h v hv)
+  rcases islandSets_cases n es with ⟨h, he⟩ | ⟨_, h⟩
+  · exact ⟨[], he, ⟨by simp, List.Pairwise.nil, fun v hv ht => absurd ht (h v hv)⟩⟩
   · exact h
 
 example : (∃ v, v < 5 ∧ Touched [⟨0, 1, true⟩, ⟨3, 4, true⟩, ⟨1, 3, false⟩] v) ∧
     islandSets 5 [⟨0, 1, true⟩, ⟨3, 4, true⟩, ⟨1, 3, false⟩] = .ok [[0, 1], [3, 4]] :=
   ⟨⟨0, by omega, ⟨0, 1, true⟩, by simp, rfl, Or.inl rfl⟩, by decide +kernel⟩
 
-/-- Termination for every graph: the model's fuel is never exhausted, i.e. the `while True` loops of
-`System.connectivity` always exit (by `break` or by the `IndexError`). -/
-theorem connectivity_terminates (n : Nat) (es : List Edge) : islandSets n es ≠ .error .fuel := by
-  rcases islandSets_cases n es with ⟨_, h⟩ | ⟨_, sets, h, _⟩ <;> rw [h] <;> simp
+/-- Termination and totality for every graph: the model's fuel is never exhausted and no exception is raised, i.e.
+the loops of `System.connectivity` always exit normally. -/
+theorem connectivity_terminates (n : Nat) (es : List Edge) : ∃ sets, islandSets n es = .ok sets := by
+  obtain ⟨sets, h, _⟩ := islands_are_components n es
+  exact ⟨sets, h⟩
 
-/-- COUNTEREXAMPLE (defect `all-islanded-indexerror`): whenever every bus is isolated — in particular when
-all lines and jumpers are out of service — `System.connectivity` raises `IndexError`. -/
-theorem all_isolated_index_error (n : Nat) (es : List Edge) (sl : List Slack)
-    (h : ∀ v, v < n → ¬ Touched es v) : connectivity n es sl = .error .indexError := by
+/-- the input that failed on the pinned tree (`all-islanded-indexerror`): all lines out of service.  Every bus is
+now reported as an isolated bus, there is no island set, and `Bus.islands` lists the singletons only. -/
+theorem all_lines_off_witness :
+    connectivity 3 [⟨0, 1, false⟩, ⟨1, 2, false⟩] [⟨true, 0⟩] = .ok ⟨[0, 1, 2], [], [], [], [[0], [1], [2]]⟩ := by
+  decide +kernel
+
+/-- whenever every bus is isolated — in particular when all lines and jumpers are out of service — the result is
+the list of all buses as isolated buses and no island set -/
+theorem all_isolated_result (n : Nat) (es : List Edge) (sl : List Slack)
+    (h : ∀ v, v < n → ¬ Touched es v) : ∃ r, connectivity n es sl = .ok r ∧ r.sets = [] ∧ r.islanded = List.range n := by
   rcases islandSets_cases n es with ⟨_, h2⟩ | ⟨⟨v, hv, ht⟩, _⟩
-  · unfold connectivity; rw [h2]
+  · refine ⟨_, by unfold connectivity; rw [h2], rfl, ?_⟩
+    show islanded n es = List.range n
+    unfold islanded
+    apply List.filter_eq_self.mpr
+    intro a ha
+    have := mem_islanded.mpr ⟨List.mem_range.mp ha, h a (List.mem_range.mp ha)⟩
+    exact (List.mem_filter.mp this).2
   · exact absurd ht (h v hv)
 
-theorem all_lines_off_index_error (n : Nat) (es : List Edge) (sl : List Slack)
-    (h : ∀ e ∈ es, e.u = false) : connectivity n es sl = .error .indexError := by
-  apply all_isolated_index_error
-  rintro v _ ⟨e, he, hu, _⟩
-  rw [h e he] at hu; cases hu
-
-theorem all_lines_off_index_error_witness :
-    connectivity 3 [⟨0, 1, false⟩, ⟨1, 2, false⟩] [⟨true, 0⟩] = .error .indexError := by decide +kernel
-
-/-- the `IndexError` occurs in no other situation -/
-theorem index_error_iff_all_isolated (n : Nat) (es : List Edge) :
-    islandSets n es = .error .indexError ↔ ∀ v, v < n → ¬ Touched es v := by
-  rcases islandSets_cases n es with ⟨h1, h2⟩ | ⟨⟨v, hv, ht⟩, sets, h2, _⟩
-  · exact ⟨fun _ => h1, fun _ => h2⟩
-  · rw [h2]; exact ⟨fun h => (by cases h), fun h => absurd ht (h v hv)⟩
-
-/-- `Bus.islands` (isolated buses as singletons followed by `island_sets`) contains every bus, and its entries
-are pairwise disjoint: a partition of the buses into electrical islands. -/
-theorem islands_partition_partial (n : Nat) (es : List Edge) (sl : List Slack) (hne : ∃ v, v < n ∧ Touched es v) :
+/-- **`Bus.islands` (isolated buses as singletons followed by `island_sets`) contains every bus, and its entries
+are pairwise disjoint: a partition of the buses into electrical islands — for every graph.** -/
+theorem islands_partition (n : Nat) (es : List Edge) (sl : List Slack) :
     ∃ r, connectivity n es sl = .ok r ∧ (∀ v, v < n → ∃ c ∈ r.islands, v ∈ c) ∧ r.islands.Pairwise List.Disjoint := by
-  obtain ⟨sets, hs, hc⟩ := islands_are_components_partial n es hne
-  have hne' : sets.isEmpty = false := by
-    obtain ⟨v, hv, ht⟩ := hne
-    obtain ⟨c, hc', _⟩ := hc.cover v hv ht
-    cases sets with
-    | nil => cases hc'
-    | cons _ _ => rfl
+  obtain ⟨sets, hs, hc⟩ := islands_are_components n es
   refine ⟨_, by unfold connectivity; rw [hs], ?_, ?_⟩
   · intro v hv
-    simp only [islandsOf, hne', Bool.false_eq_true, if_false, List.mem_append, List.mem_map]
     by_cases ht : Touched es v
     · obtain ⟨c, hc', hvc⟩ := hc.cover v hv ht
-      exact ⟨c, Or.inr hc', hvc⟩
-    · exact ⟨[v], Or.inl ⟨v, mem_islanded.mpr ⟨hv, ht⟩, rfl⟩, by simp⟩
-  · simp only [islandsOf, hne', Bool.false_eq_true, if_false]
-    rw [List.pairwise_append]
-    refine ⟨?_, hc.disjoint, ?_⟩
-    · rw [List.pairwise_map]
+      have hne : sets.isEmpty = false := by
+        cases sets with
+        | nil => cases hc'
+        | cons _ _ => rfl
+      refine ⟨c, ?_, hvc⟩
+      simp only [islandsOf, hne, Bool.false_and, Bool.false_eq_true, if_false, List.mem_append]
+      exact Or.inr hc'
+    · refine ⟨[v], ?_, by simp⟩
+      simp only [islandsOf, List.mem_append, List.mem_map]
+      exact Or.inl ⟨v, mem_islanded.mpr ⟨hv, ht⟩, rfl⟩
+  · have hsingle : (List.map (fun b => [b]) (islanded n es)).Pairwise List.Disjoint := by
+      rw [List.pairwise_map]
       exact (islanded_nodup n es).imp (fun hab => by simpa [List.Disjoint] using hab)
-    · intro a ha b hb j hja hjb
+    have hcross : ∀ a ∈ List.map (fun b => [b]) (islanded n es), ∀ b ∈ sets, List.Disjoint a b := by
+      intro a ha b hb j hja hjb
       obtain ⟨v, hv, rfl⟩ := List.mem_map.mp ha
       obtain ⟨s, _, _, hmem⟩ := hc.is_class b hb
       have hjv : j = v := by simpa using hja
@@ -164,6 +165,15 @@ theorem islands_partition_partial (n : Nat) (es : List Edge) (sl : List Slack) (
       · subst h; contradiction
       · obtain ⟨_, _, e, he, hu, h⟩ := hk
         exact hnt ⟨e, he, hu, by omega⟩
+    simp only [islandsOf]
+    split_ifs with hcond
+    · -- no island set and no isolated bus: `n = 0` (or nothing at all); the single entry `range n`
+      have hisl : islanded n es = [] := by
+        have := (Bool.and_eq_true _ _).mp hcond
+        simpa using this.2
+      rw [hisl]; simp
+    · rw [List.pairwise_append]
+      exact ⟨hsingle, hc.disjoint, hcross⟩
 
 /-! ## slack classification -/
 
@@ -219,38 +229,70 @@ example : jIslands "z" "e" 3 [1] [(0, 0, "k"), (1, 1, "k"), (1, 4, "k"), (4, 1, 
 
 /-! ## switching a bus off -/
 
-/-- a device is attached to bus `b` when one of its `nsrc` bus fields names `b` -/
-def Attached (nsrc b : Nat) (d : Dev) : Prop := ∃ k, k < nsrc ∧ d.buses[k]? = some b
+/-- a device is attached to one of the buses `bs` when one of its `nsrc` bus fields names one of them -/
+def Attached (nsrc : Nat) (bs : List Nat) (d : Dev) : Prop := ∃ k, k < nsrc ∧ ∃ b ∈ bs, d.buses[k]? = some b
 
-theorem attachedB_iff (nsrc b : Nat) (d : Dev) : attachedB nsrc b d = true ↔ Attached nsrc b d := by
+theorem attachedB_iff (nsrc : Nat) (bs : List Nat) (d : Dev) : attachedB nsrc bs d = true ↔ Attached nsrc bs d := by
   simp [attachedB, Attached, List.any_eq_true]
 
 /-- the specification on one device: idx and bus fields untouched, off iff it was off or is attached -/
-theorem offIfAttached_spec (nsrc b : Nat) (d : Dev) :
-    (offIfAttached nsrc b d).id = d.id ∧ (offIfAttached nsrc b d).buses = d.buses ∧
-    ((offIfAttached nsrc b d).u = false ↔ d.u = false ∨ Attached nsrc b d) := by
+theorem offIfAttached_spec (nsrc : Nat) (bs : List Nat) (d : Dev) :
+    (offIfAttached nsrc bs d).id = d.id ∧ (offIfAttached nsrc bs d).buses = d.buses ∧
+    ((offIfAttached nsrc bs d).u = false ↔ d.u = false ∨ Attached nsrc bs d) := by
   unfold offIfAttached
   rw [← attachedB_iff]
-  by_cases h : attachedB nsrc b d = true <;> simp [h]
+  by_cases h : attachedB nsrc bs d = true <;> simp [h]
 
-/-- FULL statement wanted: after `ConnMan.act` a device of a dependent group is off iff it was off or one of
-its bus fields names a bus that has been switched off since the last `act`, whatever the sequence of bus
-switchings and whatever the groups.  The real code violates it in two ways (counterexamples below), hence:
-`hoff` — exactly one bus is recorded in `changes['off']`; `hgrp` — the idx of a dependent group are distinct.
-Under these hypotheses `act` turns off exactly the attached devices, in every group AND IN EVERY MODEL of a group
-(since the repair of `GroupBase.find_idx(allow_all=True)`, which reported the first model's matches only:
-`find-idx-first-model-only`, fixed), and nothing else (the statuses are those of the specification function
-`offIfAttached`), whether or not the subsequent connectivity check raises. -/
-theorem bus_off_propagates_exactly_partial (s : CM) (b : Nat)
-    (hneeded : s.needed = true) (hoff : offIdx s = [b])
+/-- **Switching buses off switches off exactly the devices attached to them and nothing else**: after `ConnMan.act`
+a device of a dependent group is off iff it was off or one of its bus fields names a bus recorded as switched off,
+whatever the NUMBER of such buses (`offIdx s` is any list), in every group and in every model of a group; the
+statuses are those of the specification function `offIfAttached`, whether or not the subsequent connectivity check
+raises.  Full strength since the repairs `find-idx-first-model-only` (first model's matches only),
+`bus-off-none-keyerror` (two buses in one change: `KeyError`, nothing switched) — the remaining hypothesis `hgrp`
+(the idx of a dependent group are distinct) is C19's registry invariant. -/
+theorem bus_off_propagates_exactly (s : CM) (hneeded : s.needed = true) (hne : offIdx s ≠ [])
     (hgrp : ∀ g ∈ s.grps, (grpIds g).Nodup) :
-    (cmAct s).1.grps = s.grps.map fun g => { g with models := g.models.map fun m => m.map (offIfAttached g.nsrc b) } := by
+    (cmAct s).1.grps = s.grps.map fun g =>
+      { g with models := g.models.map fun m => m.map (offIfAttached g.nsrc (offIdx s)) } := by
   unfold cmAct
-  simp only [hneeded, hoff, actGroups_single s.grps b hgrp, Bool.not_true, Bool.false_eq_true, if_false,
-    List.isEmpty_cons]
+  have h1 : (offIdx s).isEmpty = false := by simpa using hne
+  simp only [hneeded, h1, actGroups_spec s.grps (offIdx s) hgrp, Bool.not_true, Bool.false_eq_true, if_false]
   split <;> rfl
 
-/-- the scenario the theorem is about, end to end: init, one `Bus.alter('u', idx, 0)`, `act` -/
+/-- nothing is recorded, nothing happens -/
+theorem act_without_change (s : CM) (h : s.needed = false ∨ offIdx s = []) : cmAct s = (s, none) := by
+  unfold cmAct
+  rcases h with h | h
+  · simp [h]
+  · by_cases hn : s.needed = true <;> simp [hn, h]
+
+/-- **Successive switch-offs accumulate** (repair of `record-overwrites-off`): a bus recorded as switched off stays
+in `changes['off']` through every later `record` as long as it is off — `record` after a second `Bus.alter` no
+longer forgets the first. -/
+theorem record_keeps_pending (s : CM) (i : Nat) (hneeded : s.needed = true)
+    (hlen1 : s.off.length = s.busU.length) (hlen0 : s.busu0.length = s.busU.length)
+    (hoff : s.off[i]? = some true) (hu : s.busU[i]? = some false) :
+    (cmRecord s).1.off[i]? = some true := by
+  have hi : i < s.busU.length := by
+    rcases Nat.lt_or_ge i s.busU.length with h | h
+    · exact h
+    · rw [List.getElem?_eq_none h] at hu; cases hu
+  have e : (cmRecord s).1.off =
+      List.zipWith (fun p u => p && !u) (List.zipWith (· || ·) (cmOff s) s.off) s.busU := by
+    unfold cmRecord
+    simp only [hneeded, if_true]
+    split_ifs <;> rfl
+  rw [e]
+  have hi0 : i < s.busu0.length := by omega
+  have hi1 : i < s.off.length := by omega
+  have o : s.off[i] = true := by
+    have := List.getElem?_eq_getElem hi1; rw [this] at hoff; exact Option.some.inj hoff
+  have u : s.busU[i] = false := by
+    have := List.getElem?_eq_getElem hi; rw [this] at hu; exact Option.some.inj hu
+  rw [List.getElem?_eq_getElem (by simp [cmOff]; omega)]
+  simp [cmOff, o, u]
+
+/-- the scenario the theorems are about, end to end: init, one `Bus.alter('u', idx, 0)`, `act` -/
 def demo : CM :=
   { busIdx := [7, 8, 9], busU := [true, true, true], busu0 := [], on := [], off := [], needed := false,
     grps := [⟨2, [[⟨0, [7, 8], true⟩, ⟨1, [8, 9], true⟩]]⟩, ⟨2, []⟩, ⟨1, [[⟨0, [7], true⟩, ⟨1, [9], false⟩]]⟩] }
@@ -260,17 +302,17 @@ example : let s := runOps demo [.init, .set [0] false]
     (cmAct s).1.grps = [⟨2, [[⟨0, [7, 8], false⟩, ⟨1, [8, 9], true⟩]]⟩, ⟨2, []⟩, ⟨1, [[⟨0, [7], false⟩, ⟨1, [9], false⟩]]⟩] := by
   decide +kernel
 
-/-- COUNTEREXAMPLE (defect `record-overwrites-off`): two buses switched off one after the other before
-`act()`: `record` overwrites `changes['off']`, the line on the first bus (7-8 … here device 0 of group 0 is on
-bus 7 only through its first field) stays in service although bus 7 is off. -/
+/-- the input that failed on the pinned tree (`record-overwrites-off`): two buses switched off one after the other
+before `act()`.  Both are pending now (`offIdx = [7, 9]`) and the devices on BOTH go off. -/
 def demo2 : CM :=
   { busIdx := [7, 8, 9, 10], busU := [true, true, true, true], busu0 := [], on := [], off := [], needed := false,
     grps := [⟨2, [[⟨0, [7, 8], true⟩, ⟨1, [9, 10], true⟩]]⟩] }
 
-theorem record_overwrites_off :
-    let s := runOps demo2 [.init, .set [0] false, .set [2] false, .act]
-    s.busU = [false, true, false, true] ∧ s.needed = false ∧
-    s.grps = [⟨2, [[⟨0, [7, 8], true⟩, ⟨1, [9, 10], false⟩]]⟩] := by decide +kernel
+theorem two_switch_offs_accumulate_witness :
+    offIdx (runOps demo2 [.init, .set [0] false, .set [2] false]) = [7, 9] ∧
+    (let s := runOps demo2 [.init, .set [0] false, .set [2] false, .act]
+     s.busU = [false, true, false, true] ∧ s.needed = false ∧
+     s.grps = [⟨2, [[⟨0, [7, 8], false⟩, ⟨1, [9, 10], false⟩]]⟩]) := by decide +kernel
 
 /-- the input that failed on the pinned tree (`find-idx-first-model-only`): a bus carrying devices of two models
 of one group (a PV and a Slack of `StaticGen`): both are switched off now -/
@@ -282,14 +324,21 @@ theorem second_model_goes_off_witness :
     (runOps demo3 [.init, .set [0] false, .act]).grps =
       [⟨2, [[⟨0, [7, 8], false⟩]]⟩, ⟨1, [[⟨0, [7], false⟩], [⟨1, [7], false⟩]]⟩] := by decide +kernel
 
-/-- COUNTEREXAMPLE (defect `bus-off-none-keyerror`): two buses switched off in ONE recorded change (one
-`Bus.set` with two idx, or two buses with `u = 0` in the case file): `None` reaches `Group.set`, `act` raises
-`KeyError` and no device is switched off. -/
-theorem two_buses_at_once_key_error :
-    let s := runOps demo2 [.init, .set [0, 2] false]
-    (cmAct s).2 = some .keyError ∧ (cmAct s).1.grps = demo2.grps := by decide +kernel
+/-- the inputs that failed on the pinned tree (`bus-off-none-keyerror`): two buses switched off in ONE recorded
+change (one `Bus.set` with two idx, or two buses with `u = 0` in the case file), one of them without a device in a
+group: no exception any more, the attached devices go off. -/
+def demo4 : CM :=
+  { demo2 with grps := [⟨2, [[⟨0, [7, 8], true⟩, ⟨1, [9, 10], true⟩]]⟩, ⟨1, [[⟨0, [7], true⟩, ⟨1, [10], true⟩]]⟩] }
 
-theorem two_buses_off_in_case_file_key_error :
-    (cmInit { demo2 with busU := [false, true, false, true] }).2 = some .keyError := by decide +kernel
+theorem two_buses_at_once_witness :
+    let s := runOps demo4 [.init, .set [0, 2] false]
+    (cmAct s).2 = none ∧
+    (cmAct s).1.grps = [⟨2, [[⟨0, [7, 8], false⟩, ⟨1, [9, 10], false⟩]]⟩, ⟨1, [[⟨0, [7], false⟩, ⟨1, [10], true⟩]]⟩] := by
+  decide +kernel
+
+theorem two_buses_off_in_case_file_witness :
+    let r := cmInit { demo4 with busU := [false, true, false, true] }
+    r.2 = none ∧ r.1.grps = [⟨2, [[⟨0, [7, 8], false⟩, ⟨1, [9, 10], false⟩]]⟩, ⟨1, [[⟨0, [7], false⟩, ⟨1, [10], true⟩]]⟩] := by
+  decide +kernel
 
 end Andes.Island
